@@ -36,7 +36,7 @@ from fractions import Fraction
 import numpy as np
 
 from ..cert import DM, chol_factor, frac_json
-from ..common import InfraError
+from ..common import CorrespondenceBroken, InfraError
 from ..exact import Pure, call_rng, describe, present_list, present_nd
 from ..pool import Result, fold, run_pool, worker_driver
 from .. import qgen
@@ -999,7 +999,7 @@ def _ext_npa_vars(P, shape):
     rest = [v for v in P.variables() if all(v is not o for o in objv)]
     if len(objv) == X * Y and len(rest) == 1 and all(tuple(v.shape) == (A * d, B * d) for v in objv):
         return rest[0], {(x, y): objv[x * Y + y] for x in range(X) for y in range(Y)}, "creation-order"
-    raise InfraError(f"cannot identify the variables of the captured extended NPA problem: {[(v.name(), v.shape) for v in P.variables()]}")
+    raise CorrespondenceBroken(f"cannot identify the variables of the captured extended NPA problem: {[(v.name(), v.shape) for v in P.variables()]}")
 
 
 def _ext_desc(fn, inst, k, f, g, rho):
@@ -1086,7 +1086,7 @@ def work_ext_npa(task, res: Result):
                       {"function": "commuting_measurement_value_upper_bound", "args": base, "exception": f"{type(e).__name__}: {str(e)[:300]}", "shape": list(shape), "theorem": "ext_embed_blocks"})
         return
     if len(probs) != 1:
-        raise InfraError(f"expected one cvxpy problem from commuting_measurement_value_upper_bound, captured {len(probs)}")
+        raise CorrespondenceBroken(f"expected one cvxpy problem from commuting_measurement_value_upper_bound, captured {len(probs)}")
     P = probs[0]
     res.count("ext/npa/problems-captured")
     res.count("ext/npa/constraints-captured", len(P.constraints))
@@ -1232,7 +1232,7 @@ def _ext_ns_identify(P, shape, prob, pred):
     objv = sorted(P.objective.variables(), key=lambda v: v.id)
     idx = [(a, b, x, y) for a in range(A) for b in range(B) for x in range(X) for y in range(Y)]
     if len(objv) != len(idx) or any(tuple(v.shape) != (d, d) for v in objv):
-        raise InfraError(f"nonsignaling_value: expected {len(idx)} blocks {d}x{d} in the objective, found {[v.shape for v in objv][:5]}... ({len(objv)})")
+        raise CorrespondenceBroken(f"nonsignaling_value: expected {len(idx)} blocks {d}x{d} in the objective, found {[v.shape for v in objv][:5]}... ({len(objv)})")
     by_order = dict(zip(idx, objv))
     T = _probe(d)
     target = _probe_targets(shape, prob, pred)
@@ -1304,7 +1304,7 @@ def work_ext_ns(task, res: Result):
                       {"function": "nonsignaling_value", "args": base, "exception": f"{type(e).__name__}: {str(e)[:300]}", "shape": list(shape), "theorem": "unent_le_ns"})
         return
     if len(probs) != 1:
-        raise InfraError(f"expected one cvxpy problem from nonsignaling_value, captured {len(probs)}")
+        raise CorrespondenceBroken(f"expected one cvxpy problem from nonsignaling_value, captured {len(probs)}")
     P = probs[0]
     res.count("ext/ns/problems-captured")
     res.count("ext/ns/constraints-captured", len(P.constraints))
@@ -1507,6 +1507,10 @@ def run(ctx, model_ok=True):
     ep, em = (e0 + e1) / np.sqrt(2), (e0 - e1) / np.sqrt(2)
     ct = [{"kind": "wiesner", "states": [e0, e1, ep, em], "probs": [0.25] * 4, "n": 1, "closed": [(0.75, 1e-6)]},
           {"kind": "wiesner", "states": [e0, e1, ep, em], "probs": [0.25] * 4, "n": 2, "closed": [(0.5625, 2e-6)], "single": 0.75}]
+    # "all priors": an exact zero in the prior, not in the last position (the state is listed but never prepared)
+    ct.append({"kind": "zero-prior", "states": [e0, ep, e1], "probs": [0.5, 0.0, 0.5], "n": 1, "closed": [(1.0, 1e-6)]})
+    ct.append({"kind": "zero-prior", "states": [ep, e0, e1, ep, em], "probs": [0.0, 0.25, 0.25, 0.25, 0.25], "n": 1, "closed": [(0.75, 1e-6)]})
+    ct.append({"kind": "zero-prior", "states": [ep, e0, e1, ep, em], "probs": [0.0, 0.25, 0.25, 0.25, 0.25], "n": 2, "closed": [(0.5625, 2e-6)], "single": 0.75})
     ens = [gen_ensemble(rng) for _ in range(24 if quick else 150)]
     for st, pr in ens:
         ct.append({"kind": "random", "states": st, "probs": pr, "n": 1})
